@@ -6,6 +6,7 @@ TIER="${1:-quick}"; shift 2>/dev/null
 IDS="${*:-C01 C02 C03 C04 C05 C06 C07 C08 C09 C10 C11 C12 C13 C14 C15 C16 C17 C18 C19 C20}"
 export CARGO_NET_OFFLINE=true
 export CARGO_TARGET_DIR="$DIR/target"
+mkdir -p "$DIR/target"
 (cd "$DIR/harness" && cargo build --release --offline >"$DIR/target/build.log" 2>&1) || { echo "BUILD FAILED"; tail -20 "$DIR/target/build.log"; exit 2; }
 if [ -n "$VERIF_SCRATCH" ]; then
   mkdir -p "$VERIF_SCRATCH"; cp "$DIR/known_findings.txt" "$VERIF_SCRATCH/" 2>/dev/null
